@@ -639,18 +639,36 @@ def r10_derive_counts_every_field(ctx):
     ctx.touch(f)
     ext = [s for s in f.calls() if s.name.split('::')[-1] == 'extend' and 'TokenStream' in s.name and f.loops_containing(s.b)]
     heads = sorted({innermost_loop(f, s.b) for s in ext})
+    def stream_of(s_):
+        # the local the extended stream lives in (`ts.extend(..)` is `Extend::extend(&mut ts, ..)`: the borrow is taken in the same block)
+        o = s_.args[0]
+        if o.get('k') in ('move', 'copy') and not o['p']['pr']:
+            defs = [st for b_ in sorted(f.reachable()) for st in f.blocks[b_]['s']
+                    if st['k'] == 'assign' and st['p']['l'] == o['p']['l'] and not st['p']['pr'] and st['r']['k'] == 'ref']
+            if len(defs) == 1:
+                return defs[0]['r']['p']['l']
+            return o['p']['l']
+        return None
     n = 0
     for h in heads:
-        mine = {s.b for s in ext if innermost_loop(f, s.b) == h}
+        mine = {}
+        for s_ in ext:
+            if innermost_loop(f, s_.b) == h:
+                mine.setdefault(stream_of(s_), set()).add(s_.b)
         for path, outcome, decs in f.enum_paths(start=h, stop_at={h}):
             if outcome != 'stop' or not consistent(f, path, decs) or not all(h in f.loops_containing(b) for b in path[1:-1]):
                 continue
             if len(path) <= 3:
                 continue
             n += 1
-            ctx.check(mine <= set(path), 'derive-counts-every-field', 'every field of the type contributes to the derived byte_len', f.where_path(path),
-                      {'feeds': len(mine), 'fed on this turn': len(mine & set(path))})
-    ctx.floor('field-loop turns in the MessageBody derive', n, 3)
+            fed = [k for k, bs in mine.items() if bs & set(path)]
+            ctx.check(len(fed) == len(mine), 'derive-counts-every-field', 'every field of the type contributes to the derived byte_len (each turn of a field loop feeds every stream the loop feeds)',
+                      f.where_path(path), {'streams fed by the loop': len(mine), 'fed on this turn': len(fed)})
+    if n == 0:
+        # (quote's own repetition `#( .. )*` iterates every element by construction; there is no hand-written loop to skip a field in)
+        ctx.note('the MessageBody derive has no hand-written field loop feeding a token stream')
+    else:
+        ctx.ok('field-loop turns of the MessageBody derive inspected: %d' % n, f.where())
 
 
 def run(ctx):
